@@ -37,25 +37,24 @@ Theorem C20_pause_thm :
 Proof. exact C20_pause. Qed.
 Print Assumptions C20_pause_thm.
 
-(* once _stop is set the runner thread performs at most mu further actions of its own (see mu_le, mu_le_noall), under every continuation *)
+(* at any reachable point where _stop is set, under every continuation the runner thread performs at most mu further actions of its own; mu <= 10 without execute_all, <= 13 + 3 * (queue length + 2 * insertions still to come + 1) with it *)
+Theorem C20_stop_thm :
+  forall (cf : config) (sched1 : list tid) (s : state) (tr : list titem) (sched2 : list tid)
+           (s' : state) (l : list titem),
+         run_schedule cf sched1 = (s, tr) ->
+         s_stop s = true ->
+         run_from cf s sched2 = (s', l) ->
+         length (ractions l) <= mu cf s /\ mu cf s <= 13 + 3 * phi cf s /\ (cf_all cf = false -> mu cf s <= 10).
+Proof. exact C20_stop. Qed.
+Print Assumptions C20_stop_thm.
+
+(* the same from any state satisfying the thread-bookkeeping invariant, with the remaining budget *)
 Theorem C20_stop_bound_thm :
   forall (cf : config) (sched : list tid) (s s' : state) (l : list titem),
          base_inv s ->
          s_stop s = true -> run_from cf s sched = (s', l) -> length (ractions l) + mu cf s' <= mu cf s.
 Proof. exact C20_stop_bound. Qed.
 Print Assumptions C20_stop_bound_thm.
-
-(* the bound is 10 actions without execute_all *)
-Theorem mu_le_noall_thm :
-  forall (cf : config) (s : state), cf_all cf = false -> mu cf s <= 10.
-Proof. exact mu_le_noall. Qed.
-Print Assumptions mu_le_noall_thm.
-
-(* and 13 + 3 * (queue length + 2 * insertions still to come + 1) with execute_all *)
-Theorem mu_le_thm :
-  forall (cf : config) (s : state), mu cf s <= 10 + 3 * phi cf s + 3.
-Proof. exact mu_le. Qed.
-Print Assumptions mu_le_thm.
 
 (* inside stop() with both flags set, every continuation with >= mu runner turns and then one client turn makes stop() return (so: under every fair schedule) *)
 Theorem C20_stop_returns_thm :
